@@ -24,7 +24,7 @@ Emit(rec) == IF EMIT THEN PrintT(ToJson(rec)) ELSE TRUE
 Chk(cond, msg) == IF EMIT THEN TRUE ELSE Assert(cond, msg)
 SeqT(t) == [i \in 1 .. (NB * B) |-> t[i - 1]]
 HSeq == [f \in 1 .. FPMax |-> H[f]]
-St(c) == [tbl |-> SeqT(c.tbl), n |-> c.n, h |-> HSeq]
+St(c) == [tbl |-> SeqT(c.tbl), n |-> c.n, h |-> HSeq, hx |-> <<>>]
 Cfg == [b |-> B, nb |-> NB, fpmax |-> FPMax, h |-> HSeq]
 Script(s2, p) == [s2 |-> s2, pat |-> p]
 
